@@ -156,7 +156,14 @@ def mutate(text, ch, nops):
         elif op == 'long-segment':
             segs[i] = segs[i] + ele + 'L' * ch.choice([9000, 20000])
         elif op == 'second-isa':
-            segs.insert(i, segs[0] if ch.chance(.7) else segs[0][:60])
+            isa2 = segs[0] if ch.chance(.7) else segs[0][:60]
+            if ch.chance(.5):
+                # ... of another version than the leading header (supported or not)
+                p = isa2.split(ele)
+                if len(p) > 12:
+                    p[12] = ch.choice(['00400', '00200', '00501', '00401', '00300', 'ABCDE'])
+                    isa2 = ele.join(p)
+            segs.insert(i, isa2)
         elif op == 'unknown-gs08':
             k = [j for j, s in enumerate(segs) if s.startswith('GS' + ele)]
             if k:
